@@ -1,0 +1,12 @@
+//go:build verif
+
+package wtxmgr
+
+import "github.com/lightningnetwork/lnd/clock"
+
+// VerifSetClock replaces the store's time source. It exists only in builds
+// with the verif tag and is used by the verification harness to explore lease
+// expiry deterministically.
+func (s *Store) VerifSetClock(c clock.Clock) {
+	s.clock = c
+}
